@@ -1,0 +1,25 @@
+//go:build verif
+
+// Package verifhook is the registry behind the verification failpoints and yield points
+// (build tag "verif"). Code under test calls its package-local verifPoint; a harness installs one
+// function that is then called at every point, on the goroutine that reached it. The function may
+// copy files, record the point, or block to park the goroutine.
+package verifhook
+
+import "sync/atomic"
+
+type Func func(name string, database int, data []byte)
+
+var hook atomic.Value
+
+// Set installs (or, with nil, removes) the function called at every point.
+func Set(f Func) {
+	hook.Store(&f)
+}
+
+// Point reports that the calling goroutine has reached the named point.
+func Point(name string, database int, data []byte) {
+	if p, ok := hook.Load().(*Func); ok && p != nil && *p != nil {
+		(*p)(name, database, data)
+	}
+}
